@@ -6,6 +6,7 @@ package main
 
 import (
 	"fmt"
+	"os"
 	"go/token"
 	"go/types"
 	"sort"
@@ -160,7 +161,342 @@ func (c *Ctx) scanTypeInv(ti *TypeInv) ([]*Obligation, int) {
 	return []*Obligation{ob}, n
 }
 
-func (c *Ctx) scanEffects(prop string) ([]*Obligation, map[string]interface{}) { return nil, nil }
+// ---------------------------------------------------------------------------
+// effect (frame) contracts: "a sandboxed interpreter cannot reach the world"
+//
+// Directives:
+//   //@ effects C08 roots F1, F2, ...     functions a sandboxed script / its host setup can enter
+//   //@ effects C08 guarded F unless expr F may reach the world only when expr (over its entry
+//                                         state) is false; each such call site is an SMT obligation
+// The frame is "the world": the denied primitives below.  Every function of the
+// program (package zygo and its non-standard-library dependencies) has the
+// default contract "effects none"; the scan checks it for everything reachable
+// from the roots over static calls, closure creation, function-value references
+// and interface dispatch.
+// ---------------------------------------------------------------------------
+
+var osAllowed = map[string]bool{"IsNotExist": true, "IsExist": true, "IsPermission": true, "IsTimeout": true, "Getpid": true,
+	"Getppid": true, "Getpagesize": true, "NewSyscallError": true, "SameFile": true, "IsPathSeparator": true, "NewFile": true}
+
+var deniedPkgs = map[string]bool{"os/exec": true, "io/ioutil": true, "syscall": true, "net": true, "net/http": true, "plugin": true,
+	"os/user": true, "os/signal": true, "net/url": false}
+
+func isStdlib(path string) bool {
+	first := path
+	if i := strings.Index(path, "/"); i >= 0 {
+		first = path[:i]
+	}
+	return !strings.Contains(first, ".")
+}
+
+// deniedPrimitive: is f an outside-world primitive?
+func deniedPrimitive(f *ssa.Function) bool {
+	if f == nil || f.Pkg == nil {
+		// methods of instantiated / synthetic functions: decide by receiver package
+		if f != nil && f.Signature.Recv() != nil {
+			return false
+		}
+		return false
+	}
+	path := f.Pkg.Pkg.Path()
+	if deniedPkgs[path] || strings.HasPrefix(path, "net/") {
+		return true
+	}
+	if path == "os" && f.Signature.Recv() == nil {
+		return !osAllowed[f.Name()] && token.IsExported(f.Name())
+	}
+	if path == "log" && strings.HasPrefix(f.Name(), "Fatal") {
+		return true
+	}
+	return false
+}
+
+type effGraph struct {
+	c        *Ctx
+	succ     map[*ssa.Function][]*ssa.Function
+	denied   map[*ssa.Function][]string // direct calls to denied primitives (with position)
+	impls    map[string][]*ssa.Function // interface method dispatch cache
+	cands    []types.Type
+}
+
+func (c *Ctx) inScope(f *ssa.Function) bool {
+	if f == nil {
+		return false
+	}
+	var pkg *types.Package
+	if f.Pkg != nil {
+		pkg = f.Pkg.Pkg
+	} else if f.Parent() != nil && f.Parent().Pkg != nil {
+		pkg = f.Parent().Pkg.Pkg
+	} else if r := f.Signature.Recv(); r != nil {
+		t := r.Type()
+		if p, ok := t.(*types.Pointer); ok {
+			t = p.Elem()
+		}
+		if n, ok := t.(*types.Named); ok {
+			pkg = n.Obj().Pkg()
+		}
+	}
+	if pkg == nil {
+		return false
+	}
+	return !isStdlib(pkg.Path())
+}
+
+func (c *Ctx) buildEffGraph() *effGraph {
+	g := &effGraph{c: c, succ: map[*ssa.Function][]*ssa.Function{}, denied: map[*ssa.Function][]string{}, impls: map[string][]*ssa.Function{}}
+	// candidate concrete types for interface dispatch: named types (and pointers) of in-scope packages
+	for _, p := range c.prog.AllPackages() {
+		if isStdlib(p.Pkg.Path()) {
+			continue
+		}
+		for _, m := range p.Members {
+			if t, ok := m.(*ssa.Type); ok {
+				if _, isI := t.Type().Underlying().(*types.Interface); isI {
+					continue
+				}
+				g.cands = append(g.cands, t.Type(), types.NewPointer(t.Type()))
+			}
+		}
+	}
+	for f := range c.allFuncs {
+		if !c.inScope(f) || f.Blocks == nil {
+			continue
+		}
+		seen := map[*ssa.Function]bool{}
+		add := func(t *ssa.Function) {
+			if t == nil || seen[t] {
+				return
+			}
+			seen[t] = true
+			if deniedPrimitive(t) {
+				return
+			}
+			if c.inScope(t) {
+				g.succ[f] = append(g.succ[f], t)
+			}
+		}
+		for _, b := range f.Blocks {
+			for _, in := range b.Instrs {
+				var cc *ssa.CallCommon
+				switch x := in.(type) {
+				case *ssa.Call:
+					cc = x.Common()
+				case *ssa.Defer:
+					cc = x.Common()
+				case *ssa.Go:
+					cc = x.Common()
+				}
+				if cc != nil {
+					if cal := cc.StaticCallee(); cal != nil && deniedPrimitive(cal) {
+						g.denied[f] = append(g.denied[f], fmt.Sprintf("%s at %s", cal.String(), c.posStr(in.Pos())))
+					}
+					if cal := cc.StaticCallee(); cal != nil {
+						add(cal)
+					}
+					if cc.IsInvoke() {
+						for _, t := range g.dispatch(cc.Value.Type(), cc.Method) {
+							add(t)
+						}
+					}
+				}
+				for _, op := range in.Operands(nil) {
+					if op == nil || *op == nil {
+						continue
+					}
+					if cc != nil && *op == cc.Value {
+						continue // the callee itself: handled as a call above
+					}
+					switch v := (*op).(type) {
+					case *ssa.Function:
+						if deniedPrimitive(v) {
+							g.denied[f] = append(g.denied[f], fmt.Sprintf("%s (taken as a value) at %s", v.String(), c.posStr(in.Pos())))
+						}
+						add(v)
+					case *ssa.MakeClosure:
+						if fn, ok := v.Fn.(*ssa.Function); ok {
+							add(fn)
+						}
+					}
+				}
+				if mc, ok := in.(*ssa.MakeClosure); ok {
+					if fn, ok := mc.Fn.(*ssa.Function); ok {
+						add(fn)
+					}
+				}
+			}
+		}
+	}
+	return g
+}
+
+func (g *effGraph) dispatch(recv types.Type, m *types.Func) []*ssa.Function {
+	it, ok := recv.Underlying().(*types.Interface)
+	if !ok {
+		return nil
+	}
+	key := types.TypeString(recv, nil) + "." + m.Name()
+	if r, ok := g.impls[key]; ok {
+		return r
+	}
+	var out []*ssa.Function
+	for _, t := range g.cands {
+		if types.Implements(t, it) {
+			sel := g.c.prog.MethodSets.MethodSet(t).Lookup(m.Pkg(), m.Name())
+			if sel != nil {
+				if fn := g.c.prog.MethodValue(sel); fn != nil {
+					out = append(out, fn)
+				}
+			}
+		}
+	}
+	g.impls[key] = out
+	return out
+}
+
+func (c *Ctx) scanEffects(prop string) ([]*Obligation, map[string]interface{}) {
+	var roots []string
+	guarded := map[string]string{}
+	for _, d := range c.cf.Effects {
+		if d.Prop != prop {
+			continue
+		}
+		switch d.Kind {
+		case "roots":
+			roots = append(roots, d.Funcs...)
+		case "guarded":
+			guarded[d.Funcs[0]] = d.Expr
+		}
+	}
+	if len(roots) == 0 {
+		return nil, nil
+	}
+	g := c.buildEffGraph()
+	// reachesWorld(skip): functions that can reach a denied primitive when the
+	// out-edges of every guarded function other than skip are cut
+	pred := map[*ssa.Function][]*ssa.Function{}
+	for f, ss := range g.succ {
+		for _, t := range ss {
+			pred[t] = append(pred[t], f)
+		}
+	}
+	reachesWorld := func(skip string) map[*ssa.Function]bool {
+		reaches := map[*ssa.Function]bool{}
+		var work []*ssa.Function
+		for f := range g.denied {
+			n := f.RelString(c.tpkg)
+			if _, isG := guarded[n]; isG && n != skip {
+				continue
+			}
+			reaches[f] = true
+			work = append(work, f)
+		}
+		for len(work) > 0 {
+			f := work[len(work)-1]
+			work = work[:len(work)-1]
+			for _, p := range pred[f] {
+				n := p.RelString(c.tpkg)
+				if _, isG := guarded[n]; isG && n != skip {
+					continue
+				}
+				if !reaches[p] {
+					reaches[p] = true
+					work = append(work, p)
+				}
+			}
+		}
+		return reaches
+	}
+	var out []*Obligation
+	info := map[string]interface{}{}
+	// guarded functions: SMT obligations that every world-reaching call site is dead under the guard
+	guardedOK := map[string]bool{}
+	for name, expr := range guarded {
+		fn := c.funcs[name]
+		if fn == nil {
+			out = append(out, &Obligation{Name: name + "#effect.guard", Kind: "effect.guard", Backend: "ssa-scan", Status: "failed", Model: "guarded function not found"})
+			continue
+		}
+		fc := c.cf.Funcs[name]
+		if fc == nil {
+			fc = &FuncContract{Name: name}
+		}
+		c.guardExpr = expr
+		c.worldReach = reachesWorld(name)
+		vc, err := c.verifyFunc(fn, fc, prop, false)
+		c.guardExpr = ""
+		if err != nil {
+			out = append(out, &Obligation{Name: name + "#effect.guard", Kind: "effect.guard", Backend: "ssa-scan", Status: "failed", Model: err.Error()})
+			continue
+		}
+		n := 0
+		for _, ob := range vc.obls {
+			if ob.Kind == "effect.guard" {
+				out = append(out, ob)
+				n++
+			}
+		}
+		guardedOK[name] = true
+		info["guarded "+name] = fmt.Sprintf("unless %s: %d world-reaching call sites, each an SMT obligation", expr, n)
+	}
+	sort.Strings(roots)
+	nf, ne := 0, 0
+	for f, ss := range g.succ {
+		_ = f
+		nf++
+		ne += len(ss)
+	}
+	for _, r := range roots {
+		ob := &Obligation{Name: "effect.closed[" + r + "]", Kind: "effect.call", Fn: r, Backend: "ssa-scan", Status: "ok"}
+		rf := c.funcs[r]
+		if rf == nil {
+			ob.Status, ob.Model = "failed", "root function not found"
+			out = append(out, ob)
+			continue
+		}
+		parent := map[*ssa.Function]*ssa.Function{rf: nil}
+		queue := []*ssa.Function{rf}
+		var bad []string
+		nreach := 0
+		for len(queue) > 0 {
+			f := queue[0]
+			queue = queue[1:]
+			nreach++
+			fname := f.RelString(c.tpkg)
+			if _, isG := guarded[fname]; isG && guardedOK[fname] {
+				continue // its world-reaching edges are discharged separately (effect.guard)
+			}
+			if ds := g.denied[f]; len(ds) > 0 {
+				var path []string
+				for x := f; x != nil; x = parent[x] {
+					path = append([]string{x.RelString(c.tpkg)}, path...)
+				}
+				bad = append(bad, fmt.Sprintf("%s calls %s  [path: %s]", fname, strings.Join(ds, ", "), strings.Join(path, " -> ")))
+			}
+			for _, t := range g.succ[f] {
+				if _, seen := parent[t]; !seen {
+					parent[t] = f
+					queue = append(queue, t)
+				}
+			}
+		}
+		sort.Strings(bad)
+		if len(bad) > 0 {
+			ob.Status = "failed"
+			ob.Model = strings.Join(bad, "\n")
+		}
+		if os.Getenv("ZVC_DEBUG") != "" {
+			fmt.Printf("DEBUG root %s: succ=%d nreach=%d\n", r, len(g.succ[rf]), nreach)
+			for _, t := range g.succ[rf] {
+				fmt.Printf("   -> %s (guarded=%v)\n", t.RelString(c.tpkg), guarded[t.RelString(c.tpkg)])
+			}
+		}
+		info["reachable from "+r] = nreach
+		out = append(out, ob)
+	}
+	info["effect graph"] = fmt.Sprintf("%d functions with out-edges, %d edges (static calls, closures, function values, interface dispatch) over package zygo and its non-standard-library dependencies", nf, ne)
+	return out, info
+}
 // scanRecover: guard.recover obligations.  Directive (in the contract file):
 //   //@ guard C01 recover SexpFunction.userfun
 // Every dynamic call of a function value loaded from that field must sit in a
